@@ -186,7 +186,7 @@ def _contradict(x, y):
     return False
 
 
-def dominating_atoms(f, pos):
+def dominating_atoms(f, pos, assume=()):
     """atoms of the dominating branch edges, plus what follows from them at joins: when control can enter a dominating join block
     over several edges and the later tests rule out all but one of them, the atoms of that remaining edge hold as well
     (`while(i != end && !match(i)) ++i; if(i == end) return; ...` - here match(i) holds)."""
@@ -195,11 +195,41 @@ def dominating_atoms(f, pos):
     cache = getattr(f, "_atoms_cache", None)
     if cache is None:
         cache = f._atoms_cache = {}
-    if pos in cache:
-        return cache[pos]
+    ck_ = (pos, tuple((f.strip(a_), bool(t_)) for a_, t_ in assume))
+    if ck_ in cache:
+        return cache[ck_]
     base = _dominating_atoms_basic(f, pos)
     out = list(base)
+    for a_, t_ in assume:        # facts the caller knows at this position (e.g. the selected arm of a conditional expression evaluated here)
+        for x_ in q.cond_atoms(f, a_, bool(t_)):
+            if x_ not in out:
+                out.append(x_)
+    base = list(out)
     known = [_canon(f, a[0], a[1]) for a in base if a[0] != "case"]
+    for J, alts in _join_alternatives(f, pos):
+        alive = [al for al in alts if not any(_contradict(_canon(f, n_, t_), k_) for (n_, t_) in al for k_ in known)]
+        if len(alive) == 1 and len(alts) > 1:
+            for (n_, t_) in alive[0]:
+                if (n_, t_) not in out:
+                    out.append((n_, t_))
+    _expand_named_tests(f, out, pos)
+    # named tests may decide a join the plain atoms could not
+    known2 = [_canon(f, a[0], a[1]) for a in out if a[0] != "case"]
+    if len(known2) > len(known):
+        for J, alts in _join_alternatives(f, pos):
+            alive = [al for al in alts if not any(_contradict(_canon(f, n_, t_), k_) for (n_, t_) in al for k_ in known2)]
+            if len(alive) == 1 and len(alts) > 1:
+                for (n_, t_) in alive[0]:
+                    if (n_, t_) not in out:
+                        out.append((n_, t_))
+        _expand_named_tests(f, out, pos)
+    cache[ck_] = out
+    return out
+
+
+def _join_alternatives(f, pos):
+    """[(join block, [atoms of each incoming edge])] for the join blocks that dominate pos"""
+    res = []
     for J, blk in f.blocks.items():
         preds = f.preds.get(J, [])
         if len(preds) < 2 or not f.dominates_pos((J, 0), pos) or (J, 0) == pos:
@@ -214,14 +244,8 @@ def dominating_atoms(f, pos):
                 edge = list(q.cond_atoms(f, c_, pb["succ"][0] == J))
             own = [(a[0], a[1]) for a in _dominating_atoms_basic(f, (p_, len(pb["el"]))) if a[0] != "case" and (a[0], a[1]) not in at_J]
             alts.append(edge + own)
-        alive = [al for al in alts if not any(_contradict(_canon(f, n_, t_), k_) for (n_, t_) in al for k_ in known)]
-        if len(alive) == 1 and len(alts) > 1:
-            for (n_, t_) in alive[0]:
-                if (n_, t_) not in out:
-                    out.append((n_, t_))
-    _expand_named_tests(f, out, pos)
-    cache[pos] = out
-    return out
+        res.append((J, alts))
+    return res
 
 
 def _stable_init(f, local_id, pos):
@@ -243,6 +267,8 @@ def _stable_init(f, local_id, pos):
             ops.add(("v", nx["ref"]["id"]))
         elif nx["k"] == "MemberExpr":
             ops.add(("m", nx.get("m")))
+        elif nx["k"] == "CXXOperatorCallExpr" and nx.get("oop") in PURE_OPS:
+            continue        # iterator dereference / comparison: reads only
         elif nx["k"] in ("CallExpr", "CXXMemberCallExpr", "CXXOperatorCallExpr"):
             return None
     for st in q.stores(f):
@@ -251,9 +277,36 @@ def _stable_init(f, local_id, pos):
         if not hit:
             continue
         sp = f.node_pos(st.node)
-        if sp is None or (f.find_path(dpos, {sp}) is not None and (sp == pos or f.find_path(sp, {pos}) is not None)):
-            return None
+        if sp is None or (sp != pos and f.find_path(dpos, {sp}) is not None and f.find_path(sp, {pos}, avoid={dpos}) is not None):
+            return None        # (a store at pos itself has not happened yet when the facts at pos are used)
     return init
+
+
+PURE_OPS = ("->", "*", "==", "!=", "<", "<=", ">", ">=")
+
+
+def _operands_stable(f, node, dpos, pos):
+    """no operand of the expression is stored (and no call is part of it) between position dpos and position pos"""
+    ops = set()
+    for x in f.desc(node):
+        nx = f.nodes[x]
+        if nx["k"] == "DeclRefExpr" and nx["ref"].get("dk") in ("local", "parm"):
+            ops.add(("v", nx["ref"]["id"]))
+        elif nx["k"] == "MemberExpr":
+            ops.add(("m", nx.get("m")))
+        elif nx["k"] == "CXXOperatorCallExpr" and nx.get("oop") in PURE_OPS:
+            continue
+        elif nx["k"] in ("CallExpr", "CXXMemberCallExpr", "CXXOperatorCallExpr"):
+            return False
+    for st in q.stores(f):
+        l = f.nodes[st.lhs]
+        hit = (l["k"] == "DeclRefExpr" and ("v", l["ref"].get("id")) in ops) or (l["k"] == "MemberExpr" and ("m", l.get("m")) in ops)
+        if not hit:
+            continue
+        sp = f.node_pos(st.node)
+        if sp is None or (sp != dpos and sp != pos and f.find_path(dpos, {sp}) is not None and f.find_path(sp, {pos}, avoid={dpos}) is not None):
+            return False
+    return True
 
 
 def _expand_named_tests(f, out, pos):
@@ -309,6 +362,27 @@ def _expand_named_tests(f, out, pos):
             if init is not None:
                 add(init, truth, depth + 1)
 
+    def carried(local_id, use_node):
+        """a bool local that is false unless one particular assignment ran (`bool pending = false; if(c) pending = e;`): where it is
+        known true, that assignment ran - `e` held and so did the tests that guard the assignment (operands unchanged since)"""
+        defs = getattr(f, "_defs_cache", None)
+        if defs is None:
+            defs = f._defs_cache = q.local_defs(f)
+        dl = defs.get(local_id, [])
+        if any(d[0] == "addr" for d in dl) or len(dl) < 2:
+            return
+        nonfalse = [d for d in dl if d[2] is None or eval_expr(f, d[2], {}) != 0]
+        if len(nonfalse) != 1 or nonfalse[0][2] is None:
+            return
+        kind, dnode, rhs = nonfalse[0]
+        dpos = f.node_pos(dnode)
+        if dpos is None or f.find_path(dpos, {pos}) is None and dpos != pos:
+            return
+        cands = [(rhs, True)] + [(a[0], a[1]) for a in _dominating_atoms_basic(f, dpos) if a[0] != "case"]
+        for node, truth in cands:
+            if _operands_stable(f, node, dpos, pos) and (f.strip(node), truth) not in [(f.strip(x[0]), x[1]) for x in out if x[0] != "case"]:
+                add(node, truth, 1)
+
     for _round in range(3):
         before = len(out)
         for a_ in list(out):
@@ -320,6 +394,8 @@ def _expand_named_tests(f, out, pos):
                 init = _stable_init(f, n["ref"]["id"], pos)
                 if init is not None:
                     add(init, t_, 1)
+                elif t_:
+                    carried(n["ref"]["id"], m_)
         if len(out) == before:
             break
 
@@ -638,3 +714,61 @@ def value_at(f, expr, site, val):
                 return None
             return fv.get(n["ref"]["n"])
     return None
+
+
+def path_with_cuts(f, src, dst, avoid=frozenset(), cut=frozenset(), after_src=True):
+    """a path of positions from src to dst that avoids the positions in `avoid` and the block-to-block edges in `cut`; None if none"""
+    from collections import deque
+    prev = {}
+    dq = deque()
+    for s_ in (f.succs_pos(src) if after_src else [src]):
+        if s_ not in avoid and not (s_[0] != src[0] and (src[0], s_[0]) in cut):
+            prev[s_] = None
+            dq.append(s_)
+    while dq:
+        x = dq.popleft()
+        if x == dst:
+            out = [x]
+            while prev[out[-1]] is not None:
+                out.append(prev[out[-1]])
+            return list(reversed(out))
+        for y in f.succs_pos(x):
+            if y in prev or y in avoid or (x[0] != y[0] and (x[0], y[0]) in cut):
+                continue
+            prev[y] = x
+            dq.append(y)
+    return None
+
+
+def always_before(f, pos, must_nodes):
+    """does every path from the entry to `pos` that is consistent with the facts known at `pos` pass one of `must_nodes`?
+    Branch edges whose condition contradicts a fact known at pos (operands unchanged in between) are not taken by such a path:
+    `bool pending = false; if(p) { p->a = n; if(!n) pending = p->dirty; } if(pending) <pos>` - the store to p->a precedes pos."""
+    known = [(a[0], a[1]) for a in dominating_atoms(f, pos) if a[0] != "case"]
+    kc = [_canon(f, n_, t_) for n_, t_ in known]
+    cut = set()
+    for b in f.blocks.values():
+        c = b.get("cond")
+        if c is None or len(b["succ"]) != 2 or b.get("tk") == "SwitchStmt" or b["succ"][0] == b["succ"][1]:
+            continue
+        bp = (b["id"], len(b["el"]))
+        for k in (0, 1):
+            if b["succ"][k] is None:
+                continue
+            for an, tr in q.cond_atoms(f, c, k == 0):
+                if any(_contradict(_canon(f, an, tr), x) for x in kc) and _operands_stable(f, an, bp, pos):
+                    cut.add((b["id"], b["succ"][k]))
+    must = set(p_ for p_ in (f.node_pos(m) for m in must_nodes) if p_ is not None)
+    if pos in must:
+        return True
+    return path_with_cuts(f, f.entry_pos(), pos, avoid=must, cut=cut, after_src=False) is None
+
+
+def edge_atoms(f, blk, to_block):
+    """atoms that hold on the branch edge blk -> to_block, bool locals that name a test followed into it"""
+    c = blk.get("cond")
+    if c is None or len(blk["succ"]) != 2 or blk.get("tk") == "SwitchStmt" or blk["succ"][0] == blk["succ"][1] or to_block not in blk["succ"]:
+        return []
+    out = list(q.cond_atoms(f, c, blk["succ"][0] == to_block))
+    _expand_named_tests(f, out, (blk["id"], len(blk["el"])))
+    return out
